@@ -15,10 +15,10 @@
 using namespace sim; using namespace sapp;
 
 enum { ST_RUNS, ST_SETS, ST_CYCLES, ST_LOADS, F_CRASH, F_LOST, F_TORN, F_FLIP, F_HEADER, F_APPNAME, F_GARBAGE, F_UNKNOWN_PORT, F_PERMUTED, F_DEP_LINE_DELETED,
-       P_UNTOUCHED, P_LINES3, P_NEG_VALUE, P_FLOAT_LINE, P_TOGGLE_LINE, P_STRING_SPECIAL, P_ARRAY_LINE, P_PRESET_NONZERO, P_SUBTREE_LINE, P_PTR_SUBTREE_LINE, P_PRUNED, P_OPTION_LINE, P_PERM_ALL, P_PERM_SAMPLED, P_DEP_ORDER_MATTERED, P_TORN_ACCEPTED, P_NAME_WITH_BLANK, P_NEAR_MISS_PORT, ST_N };
+       P_UNTOUCHED, P_LINES3, P_NEG_VALUE, P_FLOAT_LINE, P_TOGGLE_LINE, P_STRING_SPECIAL, P_ARRAY_LINE, P_PRESET_NONZERO, P_SUBTREE_LINE, P_PTR_SUBTREE_LINE, P_PRUNED, P_OPTION_LINE, P_PERM_ALL, P_PERM_SAMPLED, P_DEP_ORDER_MATTERED, P_TORN_ACCEPTED, P_NAME_WITH_BLANK, P_NEAR_MISS_PORT, P_AUTOSAVE, ST_N };
 static const char *STAT_NAMES[ST_N] = { "runs", "sets", "save_crash_restart_load_cycles", "evaluations", "fault.crash_restart", "fault.lost_write", "fault.torn_write", "fault.flipped_byte", "fault.foreign_header", "fault.other_application", "fault.unparsable_line", "fault.unknown_port_line", "fault.lines_permuted", "fault.depended_on_line_deleted",
        "probe.untouched_application_saved", "probe.savefile_with_3_or_more_lines", "probe.negative_value_saved", "probe.float_saved", "probe.toggle_saved", "probe.string_with_special_characters_saved", "probe.array_saved", "probe.non_default_preset_saved",
-       "probe.subtree_parameter_saved", "probe.pointer_subtree_parameter_saved", "probe.disabled_subtree_pruned", "probe.option_saved", "probe.all_permutations_enumerated", "probe.permutations_sampled", "probe.file_with_dependency_between_lines", "probe.torn_file_accepted_partially", "probe.application_name_with_a_blank", "probe.unknown_port_named_like_a_port_plus_suffix" };
+       "probe.subtree_parameter_saved", "probe.pointer_subtree_parameter_saved", "probe.disabled_subtree_pruned", "probe.option_saved", "probe.all_permutations_enumerated", "probe.permutations_sampled", "probe.file_with_dependency_between_lines", "probe.torn_file_accepted_partially", "probe.application_name_with_a_blank", "probe.unknown_port_named_like_a_port_plus_suffix", "probe.autosave_without_restart" };
 
 enum { OP_SET = 0, OP_CYCLE, OP_FILL };
 enum { FL_NONE = 0, FL_LOST, FL_TORN, FL_FLIP, FL_HEADER, FL_APP, FL_GARBAGE, FL_UNKNOWN, FL_N };
@@ -53,6 +53,7 @@ struct SaveWorld : World {
         if (op.kind == OP_FILL) { snprintf(b, sizeof b, "fill(#%lld,from=%lld,start=%lld,step=%lld)", (long long)op.a[0], (long long)op.a[1], (long long)op.a[2], (long long)op.a[3]); return b; }
         if (op.kind == OP_SET) { snprintf(b, sizeof b, "set(#%lld[%lld],%lld%s%s)", (long long)op.a[0], (long long)op.a[1], (long long)op.a[2], op.s.empty() ? "" : ",", op.s.c_str()); return b; }
         static const char *f[] = {"none", "lost_write", "torn", "flip", "foreign_header", "other_app", "garbage_line", "unknown_port"};
+        if (op.a[3] & 1) return "autosave";
         snprintf(b, sizeof b, "save|crash|restart|load(fault=%s,%lld,%lld)", f[((op.a[0] % FL_N) + FL_N) % FL_N], (long long)op.a[1], (long long)op.a[2]); return b;
     }
     std::vector<Op> simpler(const Op &op) const override {
@@ -85,7 +86,7 @@ struct SaveWorld : World {
                 case 'o': o.a[2] = pr.below((size_t)pp.hi + 1 > pp.opts.size() && pr.chance(0.4) ? (size_t)pp.hi + 1 : pp.opts.size()); o.a[3] = pr.chance(0.5); break;   // a declared range may reach beyond the symbols
                 case 's': { int len = (int)pr.below(pp.slen + 4); static const char cs[] = "abcXYZ019 _-\"'%\\/:#\n\t[]"; bool special = pr.chance(0.4); for (int q = 0; q < len; q++) o.s += special ? cs[pr.below(sizeof cs - 1)] : (char)('a' + pr.below(26)); break; }
                 }
-            } else { o.kind = OP_CYCLE; o.a[0] = faults && pr.chance(0.6) ? 1 + (int64_t)pr.below(FL_N - 1) : 0; o.a[1] = (int64_t)pr.below(100000); o.a[2] = (int64_t)pr.below(1u << 30); }
+            } else { o.kind = OP_CYCLE; o.a[0] = faults && pr.chance(0.6) ? 1 + (int64_t)pr.below(FL_N - 1) : 0; o.a[1] = (int64_t)pr.below(100000); o.a[2] = (int64_t)pr.below(1u << 30); if (!o.a[0] && prop != "C13" && pr.chance(0.3)) o.a[3] = 1; /* autosave, no crash */ }
             p.push_back(o);
         }
         Op c; c.kind = OP_CYCLE; c.a[0] = 0; c.a[2] = (int64_t)pr.below(1u << 30); p.push_back(c);
@@ -149,6 +150,8 @@ struct SaveWorld : World {
                 if (!touched) stat_add(P_UNTOUCHED); if (lines.size() >= 3) stat_add(P_LINES3);
             }
             if (!res.cls.empty()) break;
+            // an autosave: the application writes the file and lives on (the next save is made by the same object after more changes)
+            if (op.a[3] & 1) { stat_add(P_AUTOSAVE); disk = text; disk_state = want; disk_mask = mask; disk_valid = true; trace(hash_str(text)); continue; }
             // ---- the write reaches the disk (or not)
             std::string file = text; bool expect_reject = false, relaxed = false;
             switch (fl) {
